@@ -93,6 +93,7 @@ package scanner
 //@ site GetSTH#1 as gs
 //@ requires f != nil && f.opts != nil && f.client != nil && ctx != nil
 //@ modifies f.sth, f.opts.EndIndex
+//@ ensures [a-non-negative-end-index-stays-non-negative] old(f.opts.EndIndex) >= 0 ==> f.opts.EndIndex >= 0
 //@ ensures [caller-view] result1 == nil ==> result0 != nil
 //@ ensures [cached-sth-is-returned-unchanged] old(f.sth) != nil ==> result0 == old(f.sth) && result1 == nil && f.opts.EndIndex == old(f.opts.EndIndex) && !gs.called
 //@ ensures [sth-error-passed-on] gs.called && gs.res1 != nil ==> result0 == nil && result1 == gs.res1 && f.opts.EndIndex == old(f.opts.EndIndex) && f.sth == old(f.sth)
@@ -181,3 +182,38 @@ package scanner
 //@ fresh result
 //@ requires client != nil
 //@ ensures [fetcher-over-that-client-and-those-options] result != nil && result.client == client && result.opts == opts && result.sth == nil
+
+// The fetcher's wiring (C16, C20): the range generator runs under a context of its own that Stop can
+// cancel, every worker reads the generator's channel, delivers to the caller's callback and runs
+// under the caller's context (so started ranges are finished after Stop).
+//@ func (*Fetcher).Run$1
+//@ props C16 C20
+//@ may panic
+//@ modifies nothing
+//@ frame-trusted a worker writes only what runWorker writes
+//@ site runWorker#1 as rw
+//@ requires f != nil && f.client != nil && ctx != nil && fn != nil
+//@ ensures [every-started-worker-runs-the-worker-loop] rw.called
+//@ at rw assert [on-the-generators-channel-with-the-callers-callback-under-the-callers-context] rw.f == f && rw.ctx == ctx && rw.ranges == ranges
+
+//@ func (*Fetcher).Run
+//@ props C16 C20
+//@ may panic
+//@ modifies nothing
+//@ frame-trusted remembers its cancel function; the workers write only what runWorker writes
+//@ site Prepare#1 as pr
+//@ site genRanges#1 as gr
+//@ requires f != nil && f.client != nil && f.opts != nil && ctx != nil && fn != nil
+//@ requires [options-a-caller-may-pass: a positive batch size and non-negative indices] f.opts.BatchSize >= 1 && f.opts.StartIndex >= 0 && f.opts.EndIndex >= 0
+//@ ensures [no-tree-head-no-fetch] pr.res1 != nil ==> result == pr.res1 && !gr.called
+//@ ensures [otherwise-ranges-are-generated-and-the-run-reports-no-error] pr.res1 == nil ==> gr.called && result == nil
+//@ at gr assert [ranges-are-generated-under-a-context-of-their-own] gr.f == f
+
+//@ func (*Fetcher).genRanges
+//@ props C16 C20
+//@ may panic
+//@ modifies nothing
+//@ frame-trusted makes the channel and starts the generator goroutine (verified as its own unit)
+//@ requires f != nil && f.opts != nil && f.client != nil && ctx != nil
+//@ requires [options-a-caller-may-pass: a positive batch size and non-negative indices] f.opts.BatchSize >= 1 && f.opts.StartIndex >= 0 && f.opts.EndIndex >= 0
+//@ ensures [the-channel-the-generator-sends-on] result != nil
